@@ -83,7 +83,11 @@ func extract(ctx context.Context, rs io.ReadSeeker, scanFunc func() osm.Scanner,
 					verifHook(verifWorkerRecv, obj)
 					switch objType := obj.(type) {
 					case *osm.Node:
-						o.processNode(obj.(*osm.Node), keep, keepTags)
+						if o.processNode(obj.(*osm.Node), keep, keepTags) {
+							passMX.Lock()
+							needAnotherPass = true
+							passMX.Unlock()
+						}
 					case *osm.Way:
 						if o.processWay(obj.(*osm.Way), keep, keepTags) {
 							passMX.Lock()
@@ -274,7 +278,7 @@ func (o *Data) hasNeedRelation(id osm.RelationID) (has, need bool) {
 }
 
 // If the node has the tag we want, add it to the list.
-func (o *Data) processNode(n *osm.Node, keep KeepFunc, keepTags bool) {
+func (o *Data) processNode(n *osm.Node, keep KeepFunc, keepTags bool) (anotherPass bool) {
 	hasNode, needNode := o.hasNeedNode(n.ID)
 	if hasNode {
 		return
@@ -283,7 +287,10 @@ func (o *Data) processNode(n *osm.Node, keep KeepFunc, keepTags bool) {
 		o.nodeMX.Lock()
 		o.Nodes[n.ID] = copyNode(n, keepTags)
 		o.nodeMX.Unlock()
+		// Other objects may be kept because of this node.
+		anotherPass = true
 	}
+	return
 }
 
 func (o *Data) processNodeNoCopy(n *Node, keep KeepFunc, keepTags bool) {
@@ -309,6 +316,8 @@ func (o *Data) processWay(w *osm.Way, keep KeepFunc, keepTags bool) (anotherPass
 		o.wayMX.Lock()
 		o.Ways[w.ID] = copyWay(w, keepTags)
 		o.wayMX.Unlock()
+		// Other objects may be kept because of this way.
+		anotherPass = true
 		for _, n := range w.Nodes {
 			if _, needNode := o.hasNeedNode(n.ID); !needNode {
 				o.dependentNodeMX.Lock()
@@ -353,6 +362,8 @@ func (o *Data) processRelation(r *osm.Relation, keep KeepFunc, keepTags bool) (a
 		o.relationMX.Lock()
 		o.Relations[r.ID] = copyRelation(r, keepTags)
 		o.relationMX.Unlock()
+		// Other objects may be kept because of this relation.
+		anotherPass = true
 		for _, m := range r.Members {
 			switch m.Type {
 			case osm.TypeNode:
